@@ -209,7 +209,7 @@ def run(ctx):
               "and outputs must be bit-identical to the call on formed data; a counting callable must not be consulted for "
               "formed data; a raising callable must surface as PreprocessorError.  distinct = distinct (estimator, method, "
               "preprocessor kind, index representation).")
-  ctx.trusted = ["Coq 8.16.1 kernel", "hand-written models Model/Preproc.v, Model/Validate.v tied by this differential and by C06",
+  ctx.trusted = ["text pins tools/translate_pins.py (preprocessing helpers)", "Coq 8.16.1 kernel", "hand-written models Model/Preproc.v, Model/Validate.v tied by this differential and by C06",
                  "translator tools/translate_query.py for the per-method table", "numpy fancy indexing X[idx] (oracle)"]
   ctx.build_property(gen_needed=['Src_query'])
   for name, kw, data in fits.zoo_specs(np.random.default_rng(ctx.seed + 23), variants=False):
